@@ -1,5 +1,5 @@
 (* Props/C10.v -- property C10: I/O faults and the input-size cap are never swallowed. *)
-From SS Require Import Model.Reader Proofs.ReaderCell.
+From SS Require Import Model.Reader Proofs.ReaderCell Proofs.ReaderSound.
 Local Open Scope N_scope.
 
 (* Every error the underlying reader reports (whatever its kind; Interrupted is retried) is left in
@@ -56,3 +56,23 @@ Check C10_examples :
   chunked_run (Some 1) [RChunk [195; 169]] 10 = ([], Some KFileTooLarge) /\
   chunked_run (Some 2) [RChunk [195; 169]] 10 = ([233], None).
 Print Assumptions C10_examples.
+
+(* For EVERY schedule and cap, one step of the re-assembler: delivering a character never touches the
+   error cell, and ending the stream either leaves the cell as it was or stores an error in it -- an
+   error already recorded is never cleared, so it cannot be lost between the read and the report. *)
+Theorem C10_step_never_clears_cell : forall mb c r c', ck_total c <= USIZE_MAX_R ->
+  chunked_next mb c = (r, c') ->
+  ck_total c <= ck_total c' /\ ck_total c' <= USIZE_MAX_R /\
+  match r with
+  | Some ch => ck_cell c' = ck_cell c /\ exists bytes, utf8_dec bytes = Some [ch]
+  | None => ck_cell c' = ck_cell c \/ exists k, ck_cell c' = Some k
+  end.
+Proof. exact next_sound. Qed.
+Check C10_step_never_clears_cell : forall mb c r c', ck_total c <= USIZE_MAX_R ->
+  chunked_next mb c = (r, c') ->
+  ck_total c <= ck_total c' /\ ck_total c' <= USIZE_MAX_R /\
+  match r with
+  | Some ch => ck_cell c' = ck_cell c /\ exists bytes, utf8_dec bytes = Some [ch]
+  | None => ck_cell c' = ck_cell c \/ exists k, ck_cell c' = Some k
+  end.
+Print Assumptions C10_step_never_clears_cell.
